@@ -6,6 +6,7 @@ from .. import docgen as D, humdrum as H, kdoc as K, measures as MS, spine as S
 from ..common import Bad, Result
 
 ID = 'C08'
+SHARDS_QUICK = 4
 RULE = ('Hypothesis **kern scores organised in measures (see C07) x EVERY range 1 <= a <= b <= M, exported with '
         'spine_types=["**kern"].  Claimed core: signatures (clef, key signature, time signature, meter symbol; the same '
         'kinds on every spine, possibly different values) only before the first measure, splits re-joined before the '
@@ -27,7 +28,7 @@ ASSUMPTIONS = ['kv/humdrum.py implements the Humdrum syntax rules named in the p
 
 PROFILES = {
     'core': dict(),
-    'sig-change': dict(sig_changes=True),
+    'sig-change': dict(sig_changes=True, sig_after_bar=True, quiet_spines=True),
     'in-split': dict(rejoin_before_bar=False),
     'non-kern': dict(others=True),
 }
@@ -222,10 +223,10 @@ FINDINGS = {'KF-C08-SPLIT': f_split, 'KF-C08-SIGKINDS': f_sigkinds, 'KF-C08-NONK
 
 
 def run(ctx):
-    n = 60 if ctx.quick else 800
+    n = 24 if ctx.quick else 800
     ctx.run_hypothesis(cases('core'), check, max_examples=n, label='core')
     for i, prof in enumerate(('sig-change', 'in-split', 'non-kern')):
-        ctx.run_hypothesis(cases(prof), check, max_examples=max(30, n // 3), salt=i + 1, label=prof)
+        ctx.run_hypothesis(cases(prof), check, max_examples=max(12, n // 3), salt=i + 1, label=prof)
 
 
 def replay(case):
